@@ -291,7 +291,13 @@ pub(crate) fn zero_padded_i(number: i32, length: usize) -> String {
 
 /// Formats a number as a zero padded string
 pub(crate) fn zero_padded(number: u32, length: usize) -> String {
-    format!("{:0width$}", number, width = length)
+    // The width of a format specifier is limited, the length of a format string part is not
+    let number = number.to_string();
+    format!(
+        "{}{}",
+        "0".repeat(length.saturating_sub(number.len())),
+        number
+    )
 }
 
 /// Determines length of formatting part based on actual, default and max length
